@@ -318,7 +318,11 @@ fn verif_harness_ext(toks: &[&str]) -> String {
                     rx.reset();
                     (&audio[k..], 0)
                 }
-                None => (&audio[..], 0),
+                None => match kv(rest, "skip").map(|s| s.parse::<usize>().unwrap()) {
+                    // a fresh receiver on the same suffix (C18: compared with reset_at=<k>)
+                    Some(k) => (&audio[usize::min(k, audio.len())..], 0),
+                    None => (&audio[..], 0),
+                },
             };
             let out = rxrun::run(&mut rx, audio_run, &sched);
             let consumed = rx.input_sample_counter();
@@ -388,6 +392,36 @@ fn verif_harness_ext(toks: &[&str]) -> String {
                 nev = rx.iter_events(audio[..n].iter().copied()).count();
             }
             format!("ok events={}", nev)
+        }
+        // dbgdump <rxaudio params> reset_at=<k>: pretty Debug of the receiver before reset(), after reset(), and of a
+        // fresh one; lines joined by 0x1f, the three renderings by 0x1e
+        ["dbgdump", rest @ ..] => {
+            let g = |k: &str, d: &str| kv(rest, k).unwrap_or(d).to_owned();
+            let cfg = RxCfg {
+                rate: g("rate", "22050").parse().unwrap(),
+                prefix_err: g("pfx", "2").parse().unwrap(),
+                max_invalid: g("inv", "5").parse().unwrap(),
+                preamble_err: g("pre", "2").parse().unwrap(),
+            };
+            let p = Params {
+                rate: cfg.rate,
+                amp: g("amp", "10000").parse().unwrap(),
+                dc: g("dc", "0").parse().unwrap(),
+                phase: g("phase", "0").parse().unwrap(),
+                frac: g("frac", "0").parse().unwrap(),
+                baud_err: g("baud", "0").parse().unwrap(),
+                snr_db: kv(rest, "snr").map(|s| s.parse().unwrap()),
+                seed: g("seed", "1").parse().unwrap(),
+            };
+            let audio = synth::synthesize(&p, &g("script", ""));
+            let k = usize::min(g("reset_at", "0").parse().unwrap(), audio.len());
+            let mut rx = rxrun::build(&cfg);
+            for _e in rx.iter_events(audio[..k].iter().copied()) {}
+            let before = format!("{:#?}", rx);
+            rx.reset();
+            let after = format!("{:#?}", rx);
+            let fresh = format!("{:#?}", rxrun::build(&cfg));
+            format!("{}\x1e{}\x1e{}", before.replace('\n', "\x1f"), after.replace('\n', "\x1f"), fresh.replace('\n', "\x1f"))
         }
         // resetdbg <rxaudio params> reset_at=<k>: Debug of a reset receiver vs a fresh one
         ["resetdbg", rest @ ..] => {
